@@ -1,8 +1,10 @@
-/* env/ctl_env.h -- environment of unit ctl (libxcm/ctl/ctl.c, C14); include AFTER the real TU and env/base.h.
+/* env/ctl_env.h -- environment of unit ctl (libxcm/ctl/ctl.c, C14); include AFTER the real TU, INSTEAD of env/base.h
+ * (this unit needs allocation/copy models whose sizes constant propagation cannot fold, see "what env/base.h provides").
  *
- * Everything in here is TRUSTED: stub bodies of the kernel/libc calls ctl.c makes and of the three xcm modules it is
- * cut away from by stub (xpoll, util, common_ctl).  xcm_attr_get is cut away by CONTRACT (contracts/ctl.h);
- * xcm_attr_get_all is a stub with a loop (it calls back through a function pointer, which a contract cannot do).
+ * Everything in here is TRUSTED: stub bodies of the kernel/libc calls ctl.c makes (recv, send, getsockname, unlink, stat,
+ * getpid, socket, bind, listen; memcpy, memset, strcpy, strlen, strnlen) and of the xcm modules it is cut away from by
+ * stub (xpoll, util, log, common_ctl).  xcm_attr_get is cut away by CONTRACT (contracts/ctl.h); xcm_attr_get_all is a
+ * stub with a loop under invariant (it calls back through a function pointer, which a contract cannot do).
  *
  * All stubs over-approximate: every result the real function may produce is produced, buffers are filled with
  * arbitrary bytes, errno may be left with any value where the real function may touch it.  What each stub was asked to
@@ -55,6 +57,8 @@
 #ifndef XV_CTL_LEN_MAX
 #define XV_CTL_LEN_MAX 1024     /* attribute values of 0..1024 bytes are explored (the wire field holds 512)  */
 #endif
+/* (both are bounds of the EXPLORED inputs of add_attr / xcm_attr_get_all, stated in the evidence: a correct add_attr looks at
+ * the length before it copies, so nothing depends on how far beyond 63 / 512 the bounds lie) */
 
 /* ------------------------------------------------------------------ ghost state of the unit
  * (havocked by xv_ctl_ghost_havoc() at the start of every harness; C would zero-initialise it) */
@@ -144,7 +148,8 @@ size_t xv_ctl_i;               /* ghost index (never assigned): an ARBITRARY pos
 #define xv_ctl_i_val_mc xv_ctl_all.i_val_mc
 #define xv_ctl_i_name_j xv_ctl_all.i_name_j
 #define xv_ctl_i_namelen xv_ctl_all.i_namelen
-/* add_attr (contract in contracts/ctl.h): ghost constants bound to entry values: attrs_len, strlen(attr_name), len */
+/* add_attr (contract in contracts/ctl.h): attrs_len on entry, strlen(attr_name), len -- set by the harness (enforce) or by
+ * the xcm_attr_get_all stub right before the callback (replace), bound by add_attr's requires clauses */
 #define xv_ctl_g_len0 xv_ctl_all.g_len0
 #define xv_ctl_g_namelen xv_ctl_all.g_namelen
 #define xv_ctl_g_len xv_ctl_all.g_len
@@ -459,22 +464,22 @@ void ctl_get_dir(char *buf, size_t capacity)
 {
     size_t n = nondet_size_t();
     __CPROVER_assume(capacity >= 1 && n < capacity);
-    if (n > 0) __CPROVER_havoc_slice(buf, n);
+    __CPROVER_havoc_slice(buf, capacity);      /* whole buffer arbitrary (includes: bytes behind the terminator unchanged) */
     buf[n] = '\0';
 }
 void ctl_derive_path(const char *ctl_dir, pid_t creator_pid, int64_t sock_ref, char *buf, size_t capacity)
 {
     size_t n = nondet_size_t();
     __CPROVER_assume(capacity >= 1 && n < capacity);
-    if (n > 0) __CPROVER_havoc_slice(buf, n);
+    __CPROVER_havoc_slice(buf, capacity);
     buf[n] = '\0';
 }
 
 
 /* ------------------------------------------------------------------ xcm_attr_get_all (libxcm/core/xcm.c), TRUSTED(xcm_attr_get_all)
  * Calls cb ANY number of times (loop closed by the invariant below, no bound), each time with an ARBITRARY name of
- * 0..XV_CTL_NAME_OBJ-1 characters, ARBITRARY type, ARBITRARY value of 0..XV_CTL_LEN_MAX bytes (heap buffers.  May leave any errno.  Ghosts: xv_ctl_all_n counts the reportable
- * attributes, xv_ctl_i_* records the xv_ctl_i-th of them.
+ * 0..XV_CTL_NAME_OBJ-1 characters, ARBITRARY type, ARBITRARY value of 0..XV_CTL_LEN_MAX bytes.  May leave any errno.
+ * Ghosts: xv_ctl_all_n counts the reportable attributes, xv_ctl_i_* records the xv_ctl_i-th of them.
  * The invariant speaks about the reply under construction, so this stub is specific to the one call in ctl.c
  * (cb == add_attr, cb_data == the get_all_attr_cfm being filled, attrs_len == 0 on entry -- asserted). */
 #define XV_CTL_ALL_GHOSTS xv_errno, xv_ctl_all_calls, xv_ctl_all
